@@ -577,7 +577,7 @@ class Bits:
                     self._bitstore = temp.getslice_msb0(offset, None)
                 else:
                     self._bitstore = temp.getslice_msb0(offset, offset + length)
-                    if len(self) != length:
+                    if len(self) != length or offset > len(temp):
                         raise bitstring.CreationError(f"Can't use a length of {length} bits and an offset of {offset} bits as file length is only {len(temp)} bits.")
 
     def _setbitarray(self, ba: bitarray.bitarray, length: Optional[int], offset: Optional[int]) -> None:
